@@ -28,7 +28,7 @@ from ..sigref import ref_valid, sign_with
 
 PID = "C01"
 LEVEL = "exploration"
-RULE = ("for each of 8 scripted overlay runs every datagram the observed node received (valid by the reference verdict) is "
+RULE = ("[plus overlays configured anonymize=True on a TunnelEndpoint; two-step mutants (authentic datagram under a mixed key, then a foreign signature)] for each of 8 scripted overlay runs every datagram the observed node received (valid by the reference verdict) is "
         "mutated: three bit flips per byte position (thorough: all 8 bits), every truncation length, 3 extensions, 6 "
         "key/signature substitutions, splices with up to 6 other datagrams, prefix swap, swap to every registered message "
         "id, key-length edits, sibling-community replay - exhaustive over positions for the captured corpus. Non-trivial = "
